@@ -8,9 +8,14 @@ namespace obit {
 
 
 
-inline unsigned m_popcount(std::uint64_t x) { unsigned n = 0; while (x) { n += unsigned(x & 1); x >>= 1; } return n; }
-inline unsigned m_clz(std::uint64_t x, unsigned bits) { unsigned n = 0; for (unsigned i = bits; i-- > 0;) { if ((x >> i) & 1) break; ++n; } return n; }
-inline unsigned m_ctz(std::uint64_t x, unsigned bits) { unsigned n = 0; for (unsigned i = 0; i < bits; ++i) { if ((x >> i) & 1) break; ++n; } return n; }
+// reference models: plain bit loops (slow_*), and the compiler builtins that the exhaustive passes use (a 2^32 pass spent most of its time in the
+// loops). self_check() compares the two on every 16-bit value at every shift position and aborts the harness if they ever differ.
+inline unsigned slow_popcount(std::uint64_t x) { unsigned n = 0; while (x) { n += unsigned(x & 1); x >>= 1; } return n; }
+inline unsigned slow_clz(std::uint64_t x, unsigned bits) { unsigned n = 0; for (unsigned i = bits; i-- > 0;) { if ((x >> i) & 1) break; ++n; } return n; }
+inline unsigned slow_ctz(std::uint64_t x, unsigned bits) { unsigned n = 0; for (unsigned i = 0; i < bits; ++i) { if ((x >> i) & 1) break; ++n; } return n; }
+__attribute__((always_inline)) inline unsigned m_popcount(std::uint64_t x) { return unsigned(__builtin_popcountll(x)); }
+__attribute__((always_inline)) inline unsigned m_clz(std::uint64_t x, unsigned bits) { return x == 0 ? bits : unsigned(__builtin_clzll(x)) - (64 - bits); }
+__attribute__((always_inline)) inline unsigned m_ctz(std::uint64_t x, unsigned bits) { return x == 0 ? bits : unsigned(__builtin_ctzll(x)); }
 inline std::uint64_t m_bit_floor(std::uint64_t x, unsigned bits) { return x == 0 ? 0 : 1ull << (bits - m_clz(x, bits) - 1); }
 inline std::uint64_t m_bit_ceil(std::uint64_t x, unsigned bits) {
     if (x <= 1) return 1;
@@ -23,11 +28,35 @@ inline std::uint64_t m_byteswap(std::uint64_t x, unsigned bits) {
     for (unsigned i = 0; i < bits / 8; ++i) r |= ((x >> (8 * i)) & 0xff) << (bits - 8 - 8 * i);
     return r;
 }
-inline unsigned m_countl_sign(std::uint64_t x, unsigned bits) {
-    // number of bits after the sign bit that equal it == countl_zero(x ^ (x >> 1 arithmetic)) - 1
+inline unsigned slow_countl_sign(std::uint64_t x, unsigned bits) {
+    // number of bits after the sign bit that equal it
     unsigned sign = unsigned((x >> (bits - 1)) & 1), n = 0;
     for (unsigned i = bits - 1; i-- > 0;) { if (((x >> i) & 1) != sign) break; ++n; }
     return n;
+}
+__attribute__((always_inline)) inline unsigned m_countl_sign(std::uint64_t x, unsigned bits) {
+    const std::uint64_t M = low_mask(bits);
+    const std::uint64_t y = ((x >> (bits - 1)) & 1) ? (~x & M) : x;  // leading zeros of the value with its sign bits cleared, minus the sign bit itself
+    return m_clz(y, bits) - 1;
+}
+
+inline void self_check() {
+    static bool done = false;
+    if (done) return;
+    done = true;
+    const unsigned widths[4] = {8, 16, 32, 64};
+    for (unsigned wi = 0; wi < 4; ++wi) {
+        const unsigned B = widths[wi];
+        for (unsigned sh = 0; sh < B; ++sh)
+            for (std::uint64_t v = 0; v < 65536; ++v)
+                for (int inv = 0; inv < 2; ++inv) {
+                    const std::uint64_t x = (inv ? ~(v << sh) : (v << sh)) & low_mask(B);
+                    if (slow_countl_sign(x, B) != m_countl_sign(x, B) || slow_popcount(x) != m_popcount(x) || slow_clz(x, B) != m_clz(x, B) || slow_ctz(x, B) != m_ctz(x, B)) {
+                        std::fprintf(stderr, "harness self-check failed: builtin bit model differs from the loop model for %llx (%u bits)\n", (unsigned long long)x, B);
+                        std::abort();
+                    }
+                }
+    }
 }
 
 template<class S> inline bool bit_nt(S a, std::uint64_t result) {
